@@ -1,4 +1,170 @@
-import FsDb.Spec.Iso
-/-! # C08 (theorems under construction) -/
+import FsDb.Properties.C07
+/-!
+# C08 — Snapshot transactions see one consistent, stable snapshot
+
+With the commit as one atomic step that stamps all its versions with ONE number (tie: skeleton of
+`UpdateTx`, `Begin`, `cleaner.DeleteOld`; enforced schedules on the real code), the property is a
+statement about histories of atomic steps, proved on the specification and carried to the concrete
+model by `Refine.run` (which includes the collector: `R.hist` keeps exactly what open snapshots need).
+-/
 namespace FsDb.C08
+open FsDb Spec
+
+/-- every operation except `reopen` leaves the committed history of a key as it is or appends one
+    version stamped with the next clock value -/
+def Grew (s : State) (k : Key) (s' : State) : Prop :=
+  s'.hist k = s.hist k ∨ ∃ val, s'.hist k = s.hist k ++ [⟨s.clock + 1, val⟩]
+
+theorem hist_step (s : State) (op : Op) (hop : ∀ f, op ≠ .reopen f) (k : Key) : Grew s k (Spec.step s op).1 := by
+  have hwrite : ∀ t' k' val, Grew s k (Spec.write s t' k' val).1 := by
+    intro t' k' val
+    unfold Spec.write
+    split
+    · by_cases hk : k = k'
+      · subst hk; exact Or.inr ⟨val, by simp⟩
+      · exact Or.inl (by simp [hk])
+    · split
+      · exact Or.inl rfl
+      · exact Or.inl (by simp)
+  cases op with
+  | begin t l => show Grew s k (Spec.begin s t l).1; unfold Spec.begin; split <;> exact Or.inl rfl
+  | set t k' n =>
+    show Grew s k (Spec.set s t k' n).1
+    unfold Spec.set
+    split
+    · exact Or.inl rfl
+    · split
+      · exact Or.inl rfl
+      · exact hwrite t k' (some n)
+  | del t k' => exact hwrite t k' none
+  | get _ _ => exact Or.inl rfl
+  | keys _ => exact Or.inl rfl
+  | commit t =>
+    show Grew s k (Spec.commit s t).1
+    unfold Spec.commit
+    split
+    · exact Or.inl rfl
+    · rename_i tx _
+      simp only
+      split
+      · exact Or.inl rfl
+      · split
+        · exact Or.inl rfl
+        · have hh : (publishS (Spec.close s t) tx).hist k = (match tx.own k with
+              | some w => if k ∈ writtenS s.dom tx.own then s.hist k ++ [(⟨s.clock + 1, w.val⟩ : SVer)] else s.hist k
+              | none => s.hist k) := rfl
+          show Grew s k (publishS (Spec.close s t) tx)
+          unfold Grew
+          rw [hh]
+          cases ho : tx.own k with
+          | none => exact Or.inl rfl
+          | some w =>
+            by_cases hw : k ∈ writtenS s.dom tx.own
+            · exact Or.inr ⟨w.val, by simp [hw]⟩
+            · exact Or.inl (by simp only; rw [if_neg hw])
+  | rollback _ => exact Or.inl rfl
+  | gc =>
+    show Grew s k (if s.open_.isEmpty then { s with clock := s.clock + 1 } else s)
+    split <;> exact Or.inl rfl
+  | drain => exact Or.inl rfl
+  | reopen f => exact absurd rfl (hop f)
+  | tree => exact Or.inl rfl
+
+/-- what a snapshot that began at `b` sees of key `k` when it has not written `k` itself -/
+def snapshotOf (s : State) (b : Nat) (k : Key) : Option SVer := ((s.hist k).filter (fun v => v.stamp < b)).getLast?
+
+/-- **Stable snapshot.**  For a snapshot that began at `b ≤ clock` (every open transaction:
+    `SInv.beginLe`), no operation of anybody — commits, autocommit writes, other Begins, collector —
+    changes what it sees of any key. -/
+theorem C08_repeatable_step (s : State) (op : Op) (hop : ∀ f, op ≠ .reopen f) (b : Nat) (hb : b ≤ s.clock) (k : Key) :
+    snapshotOf (Spec.step s op).1 b k = snapshotOf s b k := by
+  unfold snapshotOf
+  rcases hist_step s op hop k with h | ⟨val, h⟩
+  · rw [h]
+  · rw [h, List.filter_append]
+    have : List.filter (fun v => decide (v.stamp < b)) [(⟨s.clock + 1, val⟩ : SVer)] = [] := by
+      simp; omega
+    rw [this, List.append_nil]
+
+theorem clock_mono (s : State) (op : Op) (hop : ∀ f, op ≠ .reopen f) : s.clock ≤ (Spec.step s op).1.clock := by
+  cases op with
+  | begin t l => show s.clock ≤ (Spec.begin s t l).1.clock; unfold Spec.begin; split <;> simp
+  | set t k' n =>
+    show s.clock ≤ (Spec.set s t k' n).1.clock
+    unfold Spec.set Spec.write
+    split
+    · exact Nat.le_refl _
+    · split
+      · exact Nat.le_refl _
+      · split
+        · simp
+        · split <;> simp
+  | del t k' =>
+    show s.clock ≤ (Spec.write s t k' none).1.clock
+    unfold Spec.write
+    split
+    · simp
+    · split <;> simp
+  | get _ _ => exact Nat.le_refl _
+  | keys _ => exact Nat.le_refl _
+  | commit t =>
+    show s.clock ≤ (Spec.commit s t).1.clock
+    unfold Spec.commit
+    split
+    · exact Nat.le_refl _
+    · simp only
+      split
+      · exact Nat.le_refl _
+      · split
+        · exact Nat.le_refl _
+        · exact Nat.le_succ _
+  | rollback _ => exact Nat.le_refl _
+  | gc =>
+    show s.clock ≤ (if s.open_.isEmpty then { s with clock := s.clock + 1 } else s).clock
+    split <;> simp
+  | drain => exact Nat.le_refl _
+  | reopen f => exact absurd rfl (hop f)
+  | tree => exact Nat.le_refl _
+
+/-- … for any history: re-reading a key returns the same result for as long as the snapshot is open -/
+theorem C08_repeatable (s : State) (ops : List Op) (hops : ∀ op ∈ ops, ∀ f, op ≠ .reopen f) (b : Nat)
+    (hb : b ≤ s.clock) (k : Key) : snapshotOf (Spec.run s ops).1 b k = snapshotOf s b k := by
+  induction ops generalizing s with
+  | nil => rfl
+  | cons op ops ih =>
+    have h1 := C08_repeatable_step s op (hops op (by simp)) b hb k
+    have h2 := ih (Spec.step s op).1 (fun o ho => hops o (List.mem_cons_of_mem _ ho))
+      (Nat.le_trans hb (clock_mono s op (hops op (by simp))))
+    show snapshotOf (Spec.run (Spec.step s op).1 ops).1 b k = _
+    rw [h2, h1]
+
+/-- **Atomic visibility.**  A successful commit stamps all the versions it publishes with the one
+    number `clock + 1`.  A snapshot that began before (`b ≤ clock`) sees none of them, for every
+    key; a snapshot that begins afterwards (`b > clock + 1`) has all of them below its begin stamp.
+    No begin stamp equals a commit stamp (both are drawn from the clock by different steps). -/
+theorem C08_atomic_visibility (s : State) (t : Nat) :
+    (∀ b, b ≤ s.clock → ∀ k, snapshotOf (Spec.commit s t).1 b k = snapshotOf s b k) ∧
+    (∀ k v, v ∈ (Spec.commit s t).1.hist k → v ∉ s.hist k → v.stamp = s.clock + 1) := by
+  refine ⟨fun b hb k => C08_repeatable_step s (.commit t) (fun f => by simp) b hb k, ?_⟩
+  intro k v hv hnv
+  rcases hist_step s (.commit t) (fun f => by simp) k with h | ⟨val, h⟩
+  · have h' : (Spec.commit s t).1.hist k = s.hist k := h
+    rw [h'] at hv; exact absurd hv hnv
+  · have h' : (Spec.commit s t).1.hist k = s.hist k ++ [⟨s.clock + 1, val⟩] := h
+    rw [h', List.mem_append] at hv
+    rcases hv with hv | hv
+    · exact absurd hv hnv
+    · simp at hv; rw [hv]
+
+/-- the snapshot view is what the concrete model's snapshot read returns, also after collector
+    passes (this is `snapshot_eq`, part of the refinement) -/
+theorem C08_concrete_snapshot {c : Sys} {s : State} (h : R c s) (k : Key) {r : TxRec} (hr : r ∈ c.reg) :
+    snapshotOf s r.seq k = (Sys.lastBefore (c.main k) r.seq).map absV := snapshot_eq h k hr
+
+/-- non-vacuity: reader 2 began before the two-key commit and sees neither key change; reader 3
+    begins after it and sees both -/
+example : (Spec.run {} [.set 0 "a" 1, .set 0 "b" 2, .begin 2 .ser, .begin 1 .rc, .set 1 "a" 10, .set 1 "b" 20,
+    .commit 1, .get 2 "a", .get 2 "b", .gc, .begin 3 .rr, .get 3 "a", .get 3 "b", .get 2 "a"]).2
+    = [.ok, .ok, .ok, .ok, .ok, .ok, .ok, .val 1, .val 2, .ok, .ok, .val 10, .val 20, .val 1] := by decide
+
 end FsDb.C08
